@@ -240,7 +240,7 @@ class LegacyDFXPWriter(BaseWriter):
                 dfxp_style['style'] = content['class']
         if 'text-align' in content:
             dfxp_style['tts:textAlign'] = content['text-align']
-        if 'italics' in content:
+        if content.get('italics'):
             dfxp_style['tts:fontStyle'] = 'italic'
         if 'font-family' in content:
             dfxp_style['tts:fontFamily'] = content['font-family']
